@@ -291,6 +291,7 @@ func init() {
 	reg(rtPkg+"IteDec", func(ex *Exec, a []Val) Val {
 		return DecV{T: ex.tf.Ite(a[0].(*Term), ex.decArg(a[1], "IteDec"), ex.decArg(a[2], "IteDec"))}
 	})
+	reg(rtPkg+"Debug", func(ex *Exec, a []Val) Val { return nil })
 	reg(rtPkg+"Cover", func(ex *Exec, a []Val) Val { ex.res.Covers[ex.argStr(a[0], "label")] = true; return nil })
 	reg(rtPkg+"Known", func(ex *Exec, a []Val) Val { return ex.tf.Bool(ex.known[ex.argStr(a[0], "id")]) })
 	reg(rtPkg+"MapOrder", func(ex *Exec, a []Val) Val { ex.mapOrder = ex.argStr(a[0], "mode"); return nil })
